@@ -1,12 +1,13 @@
 #!/bin/sh
-# Build the framework offline from files on disk: oracle library (+ its own unit tests) and the
-# export explorer against /repo's working tree.
+# Build the framework offline from files on disk: oracle library (+ its own unit tests), the
+# export explorer, the in-process macro harness and the generated corpora, all against /repo's
+# working tree, so that a check afterwards only pays for what changed in /repo.
 set -e
 cd "$(dirname "$0")"
 export CARGO_NET_OFFLINE=true
 export RUSTFLAGS="--cfg ts_rs_verif"
 export CARGO_TARGET_DIR="$PWD/.build/h"
 [ -f harness/Cargo.lock ] || cp /repo/Cargo.lock harness/Cargo.lock
-cd harness
-cargo test --offline -p tsmodel 2>&1 | tail -5
-cargo build --offline -p e3 2>&1 | tail -2
+(cd harness && cargo test --offline -p tsmodel 2>&1 | tail -4)
+unset CARGO_TARGET_DIR RUSTFLAGS
+python3 lib/prebuild.py
